@@ -1,5 +1,7 @@
 package geom
 
+import "math"
+
 // Tiny Well Known Binary
 // See spec https://github.com/TWKB/Specification/blob/master/twkb.md
 
@@ -28,6 +30,20 @@ const (
 	twkbHasExtPrec twkbMetadataHeader = 8
 	twkbIsEmpty    twkbMetadataHeader = 16
 )
+
+// twkbScaling returns the power of ten that relates coordinates to the integer
+// grid of the given precision: 10^prec for a non-negative precision (multiply
+// to encode, divide to decode), and 10^-prec for a negative precision (divide
+// to encode, multiply to decode). Only these powers are exactly representable
+// as float64; 10^prec for a negative prec is not, and scaling with it moves
+// values that lie on the grid (100000 at precision -5 was decoded as
+// 99999.99999999999).
+func twkbScaling(prec int) float64 {
+	if prec < 0 {
+		return math.Pow10(-prec)
+	}
+	return math.Pow10(prec)
+}
 
 // decodeZigZagInt64 accepts a uint64 and reverses the zigzag encoding
 // to produce the decoded signed int64 value.
